@@ -3,6 +3,7 @@ package props
 import (
 	"go/ast"
 	"go/types"
+	"strings"
 
 	"golibcheck/internal/core"
 	"golibcheck/internal/paths"
@@ -156,7 +157,13 @@ func c18Observers(p *core.Program, r *core.Report) {
 					switch stack[i].(type) {
 					case *ast.RangeStmt, *ast.ForStmt:
 						break outward
-					case *ast.IfStmt, *ast.SwitchStmt, *ast.TypeSwitchStmt:
+					case *ast.IfStmt:
+						// a nil test of the observer itself skips nobody who can be notified
+						c := stripSpaces(types.ExprString(stack[i].(*ast.IfStmt).Cond))
+						if !(strings.HasSuffix(c, "!=nil") && !strings.ContainsAny(c, "&|")) {
+							conditional = true
+						}
+					case *ast.SwitchStmt, *ast.TypeSwitchStmt:
 						conditional = true
 					}
 				}
